@@ -24,11 +24,13 @@
    STEP 4 (blocks that communicate through scoped variables): lazy_block_order_iso_scoped_partial / lazy_block_order_fail_scoped_partial at the end of this file, on the
    fragment `sstmt` of Proofs/ScPermSim.v (definitions `let @cap.x = e`, `node @cap.x`; reads `@(scope).x` in deferred positions, possibly BEFORE the defining block ran;
    inherited names allowed).  The by-index acyclicity of the thunk store is replaced by a reference evaluator over a static environment (Proofs/ScPermCbn.v).
-   Still NOT proved: scoped reads inside thunks (values of local variables or of other scoped definitions), as arguments of calls or elements of sets (a value may then mix
+   STEP 5 (lazy_block_order_iso_scoped_thunks_partial): scoped reads inside thunks (values of local variables or of other scoped definitions).
+   Still NOT proved: scoped reads as arguments of calls or elements of sets (a value may then mix
    nodes of several blocks, so values would have to be compared up to re-sorting of sets), definitions whose scope is not a capture.  Debug attributes: see c08_debug_attribute_depends_on_order. *)
 From TSG Require Import Model.Lazy Model.Run Model.Stdlib Proofs.Scoped Proofs.PermFacts Proofs.SLGraph Proofs.SLForce Proofs.SLExpr Proofs.SLStmt Proofs.StrictLazy Proofs.EvalPerm Proofs.EvalPermLazy
   Proofs.BlockPermRen Proofs.BlockPermSim Proofs.BlockPermSwap Proofs.BlockPermExec Proofs.BlockPermDen Proofs.BlockPermGraph Proofs.BlockPermEval Proofs.BlockPermStd Proofs.BlockPermExample Proofs.BlockPermFuel Proofs.BlockPermRun
-  Proofs.ScPermCbn Proofs.ScPermSound Proofs.ScPermAdeq Proofs.ScPermRen Proofs.ScPermSim Proofs.ScPermSwap Proofs.ScPermTyped Proofs.ScPermSR Proofs.ScPermExec Proofs.ScPermEvalSwap Proofs.ScPermRun Proofs.ScPermExample.
+  Proofs.ScPermCbn Proofs.ScPermSound Proofs.ScPermAdeq Proofs.ScPermRen Proofs.ScPermSim Proofs.ScPermSwap Proofs.ScPermTyped Proofs.ScPermSR Proofs.ScPermExec Proofs.ScPermEvalSwap Proofs.ScPermRun Proofs.ScPermExample
+  Proofs.ScThSim Proofs.ScThSwap Proofs.ScThTyped Proofs.ScThSR Proofs.ScThExec Proofs.ScThEval Proofs.ScThRun Proofs.ScThExample.
 From Coq Require Import Permutation.
 
 (* forcing the definitions collected for one scoped-variable name: whether it succeeds (no duplicate
@@ -271,7 +273,7 @@ Proof. exact dx_order_observable. Qed.
      - names declared `inherit` are allowed (the ancestor walk only reads the forced map);
      - as in Step 3: called functions graph-pure and equivariant under order-preserving renamings (`call_ok`), globals only mention nodes of g0, no debug attributes,
        no cancellation budget.
-   NOT covered (the statement is open there): a scoped read inside the value of a local variable or of another scoped definition (a thunk that reads a cell), as an argument
+   NOT covered by THIS theorem: a scoped read inside the value of a local variable or of another scoped definition (a thunk that reads a cell: see STEP 5 below); open: as an argument
    of a call or an element of a set (such values mix graph nodes of several blocks; the renumbering is monotone only inside one block, so sets would have to be re-sorted
    and functions be equivariant under arbitrary injective renamings), in eager positions (conditions, `for`/`scan` subjects: the cell would be forced before all definitions
    are collected — an error that DOES depend on the order), DEFINITIONS whose scope expression is not a capture.
@@ -374,3 +376,86 @@ Example c08_scoped_theorem_applies :
     exists fuel0, forall fuel', (fuel0 <= fuel')%nat -> exists ls' p',
       run_lazy K7.k7_tree sx_file config0 [[]] None ([] : list Regex.regex) Regex.rx_captures c8_call fuel' c8_ms' [] = Ok (ls', p') /\ graph_iso r sx_g (l_graph ls').
 Proof. exact sx_theorem_applies. Qed.
+
+(* ================= STEP 5: scoped reads INSIDE THUNKS =================
+   The typical use: one scoped variable defined from another (`let @a.x = @b.y`, chains of these) and local variables that hold a scoped read
+   (`let z = @a.y`, z then used in deferred positions).  Now the thunk store itself is no longer acyclic by index: the thunk of `let @a.x = @b.y`
+   may precede the thunk it reads.
+   FRAGMENT (`pm_ok3` = every executed block satisfies `tstmt`, Proofs/ScThSim.v; decidable on the program given okfn and the taint): a TAINT
+   `tnt : ident -> bool` names the local variables that may hold a value containing scoped reads (hypothesis of the theorem: any taint for which the blocks
+   are in the fragment; e.g. the names assigned such a value anywhere in the file).
+     - untainted expressions `lexpr`: the expressions of Step 3 that mention no tainted name; they are required in eager positions (conditions, `for`/`scan`
+       subjects, comprehension sources), as arguments of calls and elements of sets, in shorthand bodies and in the values of untainted variables;
+     - expressions `texpr` (deferred positions, values of tainted variables, values of scoped definitions): untainted expressions, ANY local variable,
+       scoped reads `@(texpr).x`, list literals of these;
+     - `let`/`var`/`set x = e`: `texpr e` if x is tainted, `lexpr e` otherwise; `let @cap.x = e` and `node @cap.x`: the scope a capture, `texpr e`
+       — so `let @a.x = @b.y`, `let @a.x = [z, @c.w]`, `let z = @a.x`, `var z = @a.x ... set z = @b.y` are all in the fragment;
+     - statements: as Step 4 with `texpr` in the deferred positions (node / source / sink, values of non-shorthand attributes, print arguments);
+     - inherited names allowed; hypotheses on calls, globals, debug attributes, budget as before.
+   NOT covered: a value containing a scoped read as argument of a call, element of a set, or in an eager position (see Step 4); definitions whose scope is not
+   a capture; a shorthand attribute whose value contains a scoped read.
+   PROOF (Proofs/ScTh*.v, 9 files): the evaluation phase is that of Step 4 unchanged (the reference evaluator never assumed anything about thunk bodies;
+   Proofs/ScPermEvalSwap.v now depends on the typing only through the interface `evty`).  The execution phase is redone: store locations have a KIND (L: body local
+   to the block, scoped-free, forced at will; M: any `texpr` value, never forced during execution, never mentioned by an untainted value), carried as a ghost list
+   in the two-run relation; the simulation of the whole interpreter is indexed by (graph size, kinds). *)
+
+(* one block of the new fragment, started from two states, appends the same delta, shifted; its thunks have kinds *)
+Theorem lazy_block_shift_scoped_thunks_partial : forall (rx : Type) (t : tree) (fl : file) (cfg : config) (glob : globals) (regexes : list rx)
+    (find : rx -> str -> option (list (option (N * N)))) (call : ident -> graph -> list value -> res (value * graph))
+    (eaok : amap -> Prop) (okfn : ident -> Prop) (tnt : ident -> bool) (n0 : N),
+  (forall l : loc, eaok match c_loc_attr cfg with Some k => [(k, VStr (loc_text l))] | None => [] end) ->
+  (forall f : ident, okfn f -> call_ok call f) ->
+  (forall (name : ident) (v : value), globals_get glob name = Some v -> vall (fun i : N => i < n0) v) ->
+  forall (st : stanza) (qm : qmatch) (fuel : nat) (B1 B2 : lstate) (p : polls),
+  block_ok3 fl okfn tnt st qm -> n0 <= gn B1 -> n0 <= gn B2 -> one_frame B1 -> one_frame B2 -> allunf (l_scoped B1) -> allunf (l_scoped B2) ->
+  match lexec_stanza t fl cfg glob regexes find call fuel st qm B1 p with
+  | Ok (_, s1', p') =>
+      exists (d : delta2) (s2' : lstate),
+        lexec_stanza t fl cfg glob regexes find call fuel st qm B2 p = Ok (tt, s2', p') /\ extends2 B1 d s1' /\
+        extends2 B2 (dren2 (shg (gn B1) (gn B2)) (shl (sn B1) (sn B2)) d) s2' /\ delta_ok3 eaok okfn n0 (gn B1) (sn B1) d
+  | Err e => lexec_stanza t fl cfg glob regexes find call fuel st qm B2 p = Err e
+  | Panic x => lexec_stanza t fl cfg glob regexes find call fuel st qm B2 p = Panic x
+  | OutOfFuel => lexec_stanza t fl cfg glob regexes find call fuel st qm B2 p = OutOfFuel
+  end.
+Proof. exact @block_shift3. Qed.
+
+(* THE WHOLE-RUN THEOREM with scoped reads inside thunks *)
+Theorem lazy_block_order_iso_scoped_thunks_partial : forall (rx : Type) (t : tree) (fl : file) (supplied : globals) (regexes : list rx)
+    (find : rx -> str -> option (list (option (N * N)))) (call : ident -> graph -> list value -> res (value * graph)) (okfn : ident -> Prop) (tnt : ident -> bool),
+  (forall f, okfn f -> call_ok call f) ->
+  forall g0 : graph, gclosed (N.of_nat (length g0)) g0 ->
+  (forall glob, check_globals (f_globals fl) (globals_nested supplied) = Ok glob ->
+     forall name v, globals_get glob name = Some v -> vall (fun i => i < N.of_nat (length g0)) v) ->
+  forall (fuel : nat) (ms ms' : list (N * qmatch)) (ls : lstate) (p : polls),
+  Permutation ms ms' -> Forall (pm_ok3 fl okfn tnt) ms ->
+  run_lazy t fl config0 supplied None regexes find call fuel ms g0 = Ok (ls, p) ->
+  exists r r', (forall i, r' (r i) = i) /\ (forall i, r (r' i) = i) /\ (forall i, i < N.of_nat (length g0) -> r i = i) /\
+    exists fuel0, forall fuel', (fuel0 <= fuel')%nat -> exists ls' p',
+      run_lazy t fl config0 supplied None regexes find call fuel' ms' g0 = Ok (ls', p') /\ graph_iso r (l_graph ls) (l_graph ls').
+Proof. exact @lazy_run_perm_thunks. Qed.
+(* ... and the failure direction *)
+Theorem lazy_block_order_fail_scoped_thunks_partial : forall (rx : Type) (t : tree) (fl : file) (supplied : globals) (regexes : list rx)
+    (find : rx -> str -> option (list (option (N * N)))) (call : ident -> graph -> list value -> res (value * graph)) (okfn : ident -> Prop) (tnt : ident -> bool),
+  (forall f, okfn f -> call_ok call f) ->
+  forall g0 : graph, gclosed (N.of_nat (length g0)) g0 ->
+  (forall glob, check_globals (f_globals fl) (globals_nested supplied) = Ok glob ->
+     forall name v, globals_get glob name = Some v -> vall (fun i => i < N.of_nat (length g0)) v) ->
+  forall (fuel : nat) (ms ms' : list (N * qmatch)),
+  Permutation ms ms' -> Forall (pm_ok3 fl okfn tnt) ms ->
+  (forall r, run_lazy t fl config0 supplied None regexes find call fuel ms g0 <> Ok r) ->
+  run_lazy t fl config0 supplied None regexes find call fuel ms g0 <> OutOfFuel ->
+  forall fuel' r, run_lazy t fl config0 supplied None regexes find call fuel' ms' g0 <> Ok r.
+Proof. exact @lazy_run_perm_thunks_fail. Qed.
+
+(* non-vacuity:  (module) @m { let @m.x = @m.y }   (module) @m { node @m.y }   (module) @m { node n  let z = @m.x  edge n -> @m.x  attr (n) r = z }.
+   All 6 orders of the three blocks succeed (evaluation of the model); they give two graphs, isomorphic under 0 <-> 1; from the run with the READER first
+   the theorem gives every other order and an isomorphism (the fragment's hypotheses hold for every order) *)
+Example c08_thunks_six_orders :
+  tx_run [0;1;2] = Ok tx_gA /\ tx_run [1;0;2] = Ok tx_gA /\ tx_run [1;2;0] = Ok tx_gA /\
+  tx_run [0;2;1] = Ok tx_gB /\ tx_run [2;0;1] = Ok tx_gB /\ tx_run [2;1;0] = Ok tx_gB /\ tx_gA <> tx_gB /\ graph_iso sx_r tx_gB tx_gA.
+Proof. destruct tx_six_orders as (H1 & H2 & H3 & H4 & H5 & H6). repeat (split; [assumption|]). split; [exact tx_differ|exact tx_iso]. Qed.
+Example c08_thunks_theorem_applies : forall ms', Permutation (tx_ms [2;0;1]) ms' ->
+  exists r r', (forall i, r' (r i) = i) /\ (forall i, r (r' i) = i) /\
+    exists fuel0, forall fuel', (fuel0 <= fuel')%nat -> exists ls' p',
+      run_lazy K7.k7_tree tx_file config0 [[]] None ([] : list Regex.regex) Regex.rx_captures c8_call fuel' ms' [] = Ok (ls', p') /\ graph_iso r tx_gB (l_graph ls').
+Proof. exact tx_theorem_applies. Qed.
